@@ -14,6 +14,10 @@ from .. import uscan
 def run(ctx):
     from .configtime import cached_arrays_not_updated_in_place as _cached_arrays
     _cached_arrays(ctx, 'C14.R4', ('Container.create_solution', 'Container.create_solution_from'))
+    from .configtime import quantities_parsed_by_unit_only as _one_grammar
+    _one_grammar(ctx, 'C14.R3', ('Recipe.transfer', 'Recipe.create_container', 'Recipe.create_solution', 'Recipe.create_solution_from',
+                                 'Recipe.dilute', 'Recipe.fill_to', 'Container.transfer', 'Plate.transfer', 'Container.dilute',
+                                 'Container.fill_to', 'PlateSlicer.fill_to'))
     model = ctx.model
     from .configtime import config_at_call_time
     config_at_call_time(ctx, 'C14.R3', classes=('Unit', 'Container'))
